@@ -13,9 +13,11 @@ def check(tree, rep, tier='quick', seed=0):
     rep.exhaustive = True
     rep.assumptions = ['NOT decided: "re-running asks nothing and gives the identical solution" - a two-run history over ConfigParser\'s text round trip (white space, case); only the % part is covered (K22c in C14)']
     core = get_core(tree)
+    R.k9_store_then_meet(core, rep)          # an answer that is stored is announced at once: the lines waiting for it are re-attempted in this very run and the re-run computes nothing new
     R.k17_prompt_demand(core, rep)
     R.k29_prompt_quotes_the_waiters(core, rep)
     R.k11i_strict_decoding(core, rep)    # no byte of the input file is dropped or replaced before the validators see the text
+    R.k35_store_loaded_eagerly(core, rep)
     R.k18b_write_reaches_the_file(core, rep)     # 'answers were written back': the write lands in the named file wherever that file lives
     R.k17b_validation_on_demand(core, rep)
     R.k13_add_form(core, rep)            # a form reached through an input first is loaded like one reached through a line first
